@@ -551,6 +551,25 @@ def WFPieces : Option Char → List Piece → Prop
   | prev, .lit _ :: r => prev ≠ some '\'' ∧ WFPieces (some '\'') r
   | prev, .ident q _ :: r => isQuote q = true ∧ prev ≠ some q ∧ WFPieces (some q) r
 
+/-! ## group_concat: the separator a program supplies -/
+
+/-- `sep.join(xs)` -/
+def joinWith (sep : Str) : List Str → Str
+  | [] => []
+  | [x] => x
+  | x :: y :: r => x ++ sep ++ joinWith sep (y :: r)
+
+/-- SQL `group_concat(x [, sep])` / `string_agg` / `LISTAGG` over the rows in scan order: without a separator argument the
+    default `,` (which Pony writes explicitly for PostgreSQL and Oracle) -/
+def dbGroupConcat (sepArg : Option Str) (xs : List Str) : Str := joinWith (sepArg.getD [',']) xs
+
+/-- the separator argument of the aggregate node: `aggr_ast.append(['VALUE', sep])` under the guard `sep is not None`
+    (`guardNotNone = true`) - or under a truthiness test of `sep`, which the source must not use -/
+def groupConcatArg (guardNotNone : Bool) (sep : Option Str) : Option Str :=
+  match sep with
+  | none => none
+  | some s => if guardNotNone then some s else (if s.isEmpty then none else some s)
+
 /-! ## `Param.eval` and the converters: what a bound parameter becomes; what an inline constant denotes (SQLite) -/
 
 /-- the scalar Python values a query can supply (floats, Decimals and timedeltas are tied by the query oracle only) -/
